@@ -4,7 +4,8 @@ toolkit, imported unchanged).  Runs under /venv/bin/python, PYTHONPATH=/repo:/ve
 
 case = {buffer, window, preset (bool: set the controller's buffer size directly instead of letting it ask
         the machine with sver), seed, over [[x, y, [[addr, byte], ...]], ...], dims [w, h], chip [x, y],
-        plan (fault plan of scpsim.FaultSim or null), n_tries, timeout, ops [op, ...]}
+        plan (fault plan of scpsim.FaultSim or null), n_tries, timeout, ops [op, ...],
+        chips (optional: the chip addressed by each op, same controller object throughout; default `chip`)}
 op   = ["read", p, address, length] | ["write", p, address, data] | ["conn_read", p, address, length] |
        ["conn_write", p, address, data] | ["read_struct", p, field] | ["write_struct", p, field, value] |
        ["read_vcpu", p, field] | ["write_vcpu", p, field, value] | ["fill", p, address, data, size] |
@@ -100,9 +101,9 @@ def run_case(c):
             mc._scp_data_length = c["buffer"]
         if c["window"] != 1:
             mc._window_size = c["window"]        # the controller has no public way to set it ("TODO" in the source)
-        x, y = c["chip"]
         results = []
-        for op in c["ops"]:
+        for i, op in enumerate(c["ops"]):
+            x, y = c["chips"][i] if c.get("chips") else c["chip"]     # one controller, possibly several chips
             lo = len(machine.log)
             ntx = net.ntx
             try:
